@@ -435,6 +435,26 @@ func (v *verifier) verifyImage(img imageRec, deep bool) (res *imgResult) {
 		}
 	}
 
+	// a log partition whose directory is gone (write ahead log garbage collector) must not have held entries above the
+	// sequence stored with the family's flushed data
+	for _, key := range L.Parts {
+		o := obs[key]
+		if o.Existed {
+			continue
+		}
+		for i := range L.Entries {
+			e := &L.Entries[i]
+			if e.Part == key && e.Reject == "" && len(e.Rows) > 0 && e.Last >= 0 && k >= e.Last && e.Seq > o.Durable {
+				res.fail("C07/log-partition-removed-before-its-entries-were-flushed", "%s: the directory of the log partition is not in the image; entry %d (seq %d, WriteLog returned at image %d) is above the sequence %d stored with the family's flushed data; removals: %+v",
+					key, e.ID, e.Seq, e.Last, o.Durable, L.Removals)
+				break
+			}
+		}
+		if v.anyEntryStarted(key, k) {
+			res.Counters["images_with_a_garbage_collected_log_partition"]++
+		}
+	}
+
 	// (ii) replay: until consumed = appended, bounded by the number of pending entries
 	replaying = true
 	for _, key := range L.Parts {
@@ -535,7 +555,23 @@ func notFound(err error) bool {
 	return strings.Contains(s, "not found") || strings.Contains(s, "not exist") || strings.Contains(s, "notfound")
 }
 
-func (v *verifier) timeRange() (string, string) {
+// timeRanges groups the families into query ranges of at most two hours (a longer range makes lindb pick a coarser
+// interval than the 10s slots the rows are identified by).
+func (v *verifier) timeRanges() [][2]int64 {
+	fams := append([]int64(nil), v.L.Families...)
+	sort.Slice(fams, func(i, j int) bool { return fams[i] < fams[j] })
+	var out [][2]int64
+	for _, f := range fams {
+		if n := len(out); n > 0 && f+hourMs-out[n-1][0] <= 2*hourMs {
+			out[n-1][1] = f + hourMs
+			continue
+		}
+		out = append(out, [2]int64{f, f + hourMs})
+	}
+	return out
+}
+
+func (v *verifier) timeRangeOld() (string, string) {
 	lo, hi := v.L.Families[0], v.L.Families[0]
 	for _, f := range v.L.Families {
 		if f < lo {
@@ -572,7 +608,6 @@ func (v *verifier) checkData(res *imgResult, n *node.Node, k int, obs map[partKe
 	c := node.NewCluster(n, node.Layout{})
 	defer c.Close()
 	c.Watchdog = 60 * time.Second
-	from, to := v.timeRange()
 	// expectation per row
 	type cell struct {
 		ref    *rowRef
@@ -649,6 +684,8 @@ func (v *verifier) checkData(res *imgResult, n *node.Node, k int, obs map[partKe
 		}
 		if e.Seq > o.Durable {
 			switch {
+			case !o.Existed:
+				return "C07/logged-entry-lost/log-partition-removed-before-the-entry-was-flushed"
 			case e.Seq <= o.StartAck:
 				return "C07/logged-entry-lost/acknowledged-above-stored-sequence"
 			case !applied[fmt.Sprintf("%s/%d", e.Part, e.Seq)]:
@@ -692,178 +729,189 @@ func (v *verifier) checkData(res *imgResult, n *node.Node, k int, obs map[partKe
 		return "C07/data-attributed-to-wrong-series", owner.row.key()
 	}
 	queries := 0
-	for _, m := range v.metrics {
-		cells := byMetric[m]
-		anyExpected := false
-		for _, cl := range cells {
-			if cl.status != stAbsent {
-				anyExpected = true
+	for _, tr := range v.timeRanges() {
+		from, to := fmtTime(tr[0]), fmtTime(tr[1]-1000)
+		for _, m := range v.metrics {
+			var cells []cell
+			for _, cl := range byMetric[m] {
+				if cl.ref.row.Family >= tr[0] && cl.ref.row.Family < tr[1] {
+					cells = append(cells, cl)
+				}
 			}
-		}
-		// fields and tag keys of the metric according to the ledger rows that may exist
-		fields := map[string]bool{}
-		keys := map[string]bool{}
-		hosts := map[string]bool{}
-		for _, cl := range cells {
-			if cl.status == stAbsent {
+			if len(cells) == 0 {
 				continue
 			}
-			for _, f := range cl.ref.row.Fields {
-				fields[f] = true
+			anyExpected := false
+			for _, cl := range cells {
+				if cl.status != stAbsent {
+					anyExpected = true
+				}
 			}
-			for kx := range cl.ref.row.Extra {
-				keys[kx] = true
+			// fields and tag keys of the metric according to the ledger rows that may exist
+			fields := map[string]bool{}
+			keys := map[string]bool{}
+			hosts := map[string]bool{}
+			for _, cl := range cells {
+				if cl.status == stAbsent {
+					continue
+				}
+				for _, f := range cl.ref.row.Fields {
+					fields[f] = true
+				}
+				for kx := range cl.ref.row.Extra {
+					keys[kx] = true
+				}
+				hosts[cl.ref.row.Host] = true
 			}
-			hosts[cl.ref.row.Host] = true
-		}
-		if !anyExpected {
-			fields["f"] = true
-		}
-		type q struct {
-			name, sql, field string
-			sel              func(r *rowRec) bool
-		}
-		var qs []q
-		for _, f := range sortedKeys(fields) {
-			f := f
-			qs = append(qs, q{"field " + f, fmt.Sprintf("select %s from '%s' where time >= '%s' and time <= '%s' group by uid limit 100000", f, m, from, to), f,
-				func(r *rowRec) bool { return hasStr(r.Fields, f) }})
-		}
-		for _, kx := range sortedKeys(keys) {
-			kx := kx
-			qs = append(qs, q{"group by " + kx, fmt.Sprintf("select f from '%s' where time >= '%s' and time <= '%s' group by uid,%s limit 100000", m, from, to, kx), "f",
-				func(r *rowRec) bool { _, ok := r.Extra[kx]; return ok }})
-		}
-		if hs := sortedKeys(hosts); len(hs) > 0 {
-			h := hs[(k+len(m))%len(hs)]
-			qs = append(qs, q{"where host=" + h, fmt.Sprintf("select f from '%s' where host='%s' and time >= '%s' and time <= '%s' group by uid limit 100000", m, h, from, to), "f",
-				func(r *rowRec) bool { return r.Host == h }})
-		}
-		for qi, qq := range qs {
-			qi, qq := qi, qq
-			type failure struct{ class, msg string }
-			evaluate := func(got map[string]map[string]float64, err error) ([]failure, map[string]int) {
-				var fails []failure
-				cnt := map[string]int{}
-				add := func(class, format string, args ...interface{}) {
-					fails = append(fails, failure{class, fmt.Sprintf(format, args...)})
-				}
-				if err != nil {
-					if !notFound(err) {
-						add("C07/query-fails"+suffix, "%s: %v", qq.sql, err)
-						return fails, cnt
+			if !anyExpected {
+				fields["f"] = true
+			}
+			type q struct {
+				name, sql, field string
+				sel              func(r *rowRec) bool
+			}
+			var qs []q
+			for _, f := range sortedKeys(fields) {
+				f := f
+				qs = append(qs, q{"field " + f, fmt.Sprintf("select %s from '%s' where time >= '%s' and time <= '%s' group by uid limit 100000", f, m, from, to), f,
+					func(r *rowRec) bool { return hasStr(r.Fields, f) }})
+			}
+			for _, kx := range sortedKeys(keys) {
+				kx := kx
+				qs = append(qs, q{"group by " + kx, fmt.Sprintf("select f from '%s' where time >= '%s' and time <= '%s' group by uid,%s limit 100000", m, from, to, kx), "f",
+					func(r *rowRec) bool { _, ok := r.Extra[kx]; return ok }})
+			}
+			if hs := sortedKeys(hosts); len(hs) > 0 {
+				h := hs[(k+len(m))%len(hs)]
+				qs = append(qs, q{"where host=" + h, fmt.Sprintf("select f from '%s' where host='%s' and time >= '%s' and time <= '%s' group by uid limit 100000", m, h, from, to), "f",
+					func(r *rowRec) bool { return r.Host == h }})
+			}
+			for qi, qq := range qs {
+				qi, qq := qi, qq
+				type failure struct{ class, msg string }
+				evaluate := func(got map[string]map[string]float64, err error) ([]failure, map[string]int) {
+					var fails []failure
+					cnt := map[string]int{}
+					add := func(class, format string, args ...interface{}) {
+						fails = append(fails, failure{class, fmt.Sprintf(format, args...)})
 					}
-					got = map[string]map[string]float64{}
-					cnt["queries_answered_not_found"]++
-				}
-				used := map[string]bool{}
-				var selected []*rowRef
-				for _, cl := range cells {
-					row := cl.ref.row
-					if !qq.sel(row) {
-						continue
-					}
-					if cl.status != stAbsent {
-						selected = append(selected, cl.ref)
-					}
-					slotKey := fmt.Sprintf("%d/%d", row.Family, row.Slot)
-					val := got[row.UID][slotKey]
-					used[row.UID+"@"+slotKey] = true
-					switch cl.status {
-					case stMust:
-						cnt["rows_required"]++
-						if qi == 0 {
-							if v.inHole(cl.ref, k) {
-								cnt["required_rows_inside_the_flush_protocol_window"]++
-							} else {
-								cnt["required_rows_outside_the_flush_protocol_window"]++
-							}
+					if err != nil {
+						if !notFound(err) {
+							add("C07/query-fails"+suffix, "%s: %v", qq.sql, err)
+							return fails, cnt
 						}
-						switch {
-						case val == 1:
-							cnt["rows_found_exactly_once"]++
-						case val == 0:
-							cls := classifyLost(cl.ref)
-							add(cls+suffix, "row %s (entry %d, %s seq %d; stored sequence %d, replicator restarted at %d) is not returned by %q [%s] %s",
-								row.key(), cl.ref.entry.ID, cl.ref.entry.Part, cl.ref.entry.Seq, obs[cl.ref.entry.Part].Durable, obs[cl.ref.entry.Part].StartIndex, qq.sql, qq.name, res.Note["reuse"])
-						default:
-							o := obs[cl.ref.entry.Part]
-							cls := "C07/entry-counted-twice/above-stored-sequence"
-							if cl.ref.entry.Seq <= o.Durable {
-								cls = "C07/entry-counted-twice/at-or-below-stored-sequence"
-							} else if cl.ref.entry.Raced || v.overlapsDataFlush(cl.ref.entry) {
-								// the flush that started between WriteRows and CommitSequence of this entry stored its rows
-								// under the previous sequence
-								cls = "C07/entry-counted-twice/data-flush-started-between-writerows-and-commitsequence"
-							}
-							diag := ""
-							if !isExpectedClass(cls) {
-								diag = "; families: " + familyStates(n)
-							}
-							add(cls+suffix, "row %s (entry %d, %s seq %d) has value %v instead of 1 in %q; stored sequence %d, replay applied %v%s",
-								row.key(), cl.ref.entry.ID, cl.ref.entry.Part, cl.ref.entry.Seq, val, qq.sql, o.Durable, o.Applied, diag)
-						}
-					case stMay:
-						// WriteLog never returned and the sequence is unknown: nothing to require
-					case stAbsent:
-						if val != 0 {
-							add("C07/query-returns-data-of-an-entry-appended-after-the-image"+suffix, "row %s has value %v in %q", row.key(), val, qq.sql)
-						}
+						got = map[string]map[string]float64{}
+						cnt["queries_answered_not_found"]++
 					}
-				}
-				// anything else in the answer
-				for uid, slots := range got {
-					for slotKey, val := range slots {
-						if used[uid+"@"+slotKey] {
+					used := map[string]bool{}
+					var selected []*rowRef
+					for _, cl := range cells {
+						row := cl.ref.row
+						if !qq.sel(row) {
 							continue
 						}
-						cls, owner := classifyForeign(slotKey, selected)
-						add(cls+suffix, "%q returns value %v for uid %s at slot %s, which belongs to %s", qq.sql, val, uid, slotKey, owner)
+						if cl.status != stAbsent {
+							selected = append(selected, cl.ref)
+						}
+						slotKey := fmt.Sprintf("%d/%d", row.Family, row.Slot)
+						val := got[row.UID][slotKey]
+						used[row.UID+"@"+slotKey] = true
+						switch cl.status {
+						case stMust:
+							cnt["rows_required"]++
+							if qi == 0 {
+								if v.inHole(cl.ref, k) {
+									cnt["required_rows_inside_the_flush_protocol_window"]++
+								} else {
+									cnt["required_rows_outside_the_flush_protocol_window"]++
+								}
+							}
+							switch {
+							case val == 1:
+								cnt["rows_found_exactly_once"]++
+							case val == 0:
+								cls := classifyLost(cl.ref)
+								add(cls+suffix, "row %s (entry %d, %s seq %d; stored sequence %d, replicator restarted at %d) is not returned by %q [%s] %s",
+									row.key(), cl.ref.entry.ID, cl.ref.entry.Part, cl.ref.entry.Seq, obs[cl.ref.entry.Part].Durable, obs[cl.ref.entry.Part].StartIndex, qq.sql, qq.name, res.Note["reuse"])
+							default:
+								o := obs[cl.ref.entry.Part]
+								cls := "C07/entry-counted-twice/above-stored-sequence"
+								if cl.ref.entry.Seq <= o.Durable {
+									cls = "C07/entry-counted-twice/at-or-below-stored-sequence"
+								} else if cl.ref.entry.Raced || v.overlapsDataFlush(cl.ref.entry) {
+									// the flush that started between WriteRows and CommitSequence of this entry stored its rows
+									// under the previous sequence
+									cls = "C07/entry-counted-twice/data-flush-started-between-writerows-and-commitsequence"
+								}
+								diag := ""
+								if !isExpectedClass(cls) {
+									diag = "; families: " + familyStates(n)
+								}
+								add(cls+suffix, "row %s (entry %d, %s seq %d) has value %v instead of 1 in %q; stored sequence %d, replay applied %v%s",
+									row.key(), cl.ref.entry.ID, cl.ref.entry.Part, cl.ref.entry.Seq, val, qq.sql, o.Durable, o.Applied, diag)
+							}
+						case stMay:
+							// WriteLog never returned and the sequence is unknown: nothing to require
+						case stAbsent:
+							if val != 0 {
+								add("C07/query-returns-data-of-an-entry-appended-after-the-image"+suffix, "row %s has value %v in %q", row.key(), val, qq.sql)
+							}
+						}
 					}
-				}
+					// anything else in the answer
+					for uid, slots := range got {
+						for slotKey, val := range slots {
+							if used[uid+"@"+slotKey] {
+								continue
+							}
+							cls, owner := classifyForeign(slotKey, selected)
+							add(cls+suffix, "%q returns value %v for uid %s at slot %s, which belongs to %s", qq.sql, val, uid, slotKey, owner)
+						}
+					}
 
-				return fails, cnt
-			}
-			unexpectedOf := func(fails []failure) string {
-				var keys []string
+					return fails, cnt
+				}
+				unexpectedOf := func(fails []failure) string {
+					var keys []string
+					for _, f := range fails {
+						if !isExpectedClass(f.class) {
+							keys = append(keys, f.class+" "+f.msg)
+						}
+					}
+					sort.Strings(keys)
+					return strings.Join(keys, "\n")
+				}
+				ask := func() ([]failure, map[string]int) {
+					got, err := queryCells(c, L, qq.sql, qq.field)
+					queries++
+					if verbose {
+						fmt.Printf("  QUERY %s -> err=%v %v\n", qq.sql, err, got)
+					}
+					return evaluate(got, err)
+				}
+				fails, cnt := ask()
+				if first := unexpectedOf(fails); first != "" {
+					// lindb's query engine does not always give the same answer to the same query on the same quiescent node
+					// (seen under load: one cell counted twice in one answer and once in the next, 'exceed timeout'); that is
+					// not what this property is about: an unexpected verdict counts only if two of three identical queries give it
+					f2, c2 := ask()
+					if unexpectedOf(f2) != first {
+						f3, c3 := ask()
+						res.Counters["identical_queries_with_different_answers_at_quiescence"]++
+						res.Note["unrepeatable"] = fmt.Sprintf("first answer: %s | second answer: %s | third answer: %s", tailStr(first, 600), tailStr(unexpectedOf(f2), 300), tailStr(unexpectedOf(f3), 300))
+						if unexpectedOf(f3) == unexpectedOf(f2) {
+							fails, cnt = f2, c2
+						} else if unexpectedOf(f3) != first {
+							_ = c3 // three different answers: keep the first
+						}
+					}
+				}
+				for key, val := range cnt {
+					res.Counters[key] += val
+				}
 				for _, f := range fails {
-					if !isExpectedClass(f.class) {
-						keys = append(keys, f.class+" "+f.msg)
-					}
+					res.fail(f.class, "%s", f.msg)
 				}
-				sort.Strings(keys)
-				return strings.Join(keys, "\n")
-			}
-			ask := func() ([]failure, map[string]int) {
-				got, err := queryCells(c, L, qq.sql, qq.field)
-				queries++
-				if verbose {
-					fmt.Printf("  QUERY %s -> err=%v %v\n", qq.sql, err, got)
-				}
-				return evaluate(got, err)
-			}
-			fails, cnt := ask()
-			if first := unexpectedOf(fails); first != "" {
-				// lindb's query engine does not always give the same answer to the same query on the same quiescent node
-				// (seen under load: one cell counted twice in one answer and once in the next, 'exceed timeout'); that is
-				// not what this property is about: an unexpected verdict counts only if two of three identical queries give it
-				f2, c2 := ask()
-				if unexpectedOf(f2) != first {
-					f3, c3 := ask()
-					res.Counters["identical_queries_with_different_answers_at_quiescence"]++
-					res.Note["unrepeatable"] = fmt.Sprintf("first answer: %s | second answer: %s | third answer: %s", tailStr(first, 600), tailStr(unexpectedOf(f2), 300), tailStr(unexpectedOf(f3), 300))
-					if unexpectedOf(f3) == unexpectedOf(f2) {
-						fails, cnt = f2, c2
-					} else if unexpectedOf(f3) != first {
-						_ = c3 // three different answers: keep the first
-					}
-				}
-			}
-			for key, val := range cnt {
-				res.Counters[key] += val
-			}
-			for _, f := range fails {
-				res.fail(f.class, "%s", f.msg)
 			}
 		}
 	}
@@ -874,7 +922,13 @@ func (v *verifier) checkData(res *imgResult, n *node.Node, k int, obs map[partKe
 // flushes and queries it: the answer must contain exactly the new row.
 func (v *verifier) freshWrite(res *imgResult, n *node.Node, parts map[partKey]*partState, k int, obs map[partKey]*partObs) {
 	L := v.L
-	fam := L.Families[k%len(L.Families)]
+	var recent []int64
+	for _, f := range L.Families {
+		if f != L.Old {
+			recent = append(recent, f)
+		}
+	}
+	fam := recent[k%len(recent)]
 	slot := -1
 	for s := 0; s < slotsPerFam; s++ {
 		if _, used := v.slotOwner[fmt.Sprintf("%d/%d", fam, s)]; !used {
@@ -912,7 +966,7 @@ func (v *verifier) freshWrite(res *imgResult, n *node.Node, parts map[partKey]*p
 	}
 	c := node.NewCluster(n, node.Layout{})
 	defer c.Close()
-	from, to := v.timeRange()
+	from, to := fmtTime(fam), fmtTime(fam+hourMs-1000)
 	sql := fmt.Sprintf("select f from 'fresh' where time >= '%s' and time <= '%s' group by uid limit 100000", from, to)
 	slotKey := fmt.Sprintf("%d/%d", fam, slot)
 	got, err := queryCells(c, L, sql, "f")
